@@ -13,7 +13,8 @@ func init() {
 	register("C18", "Decides structural necessary conditions of 'every component draws temporal shard boundaries at the same instants': "+
 		"(R1) ctfe.ValidateChain, (R2) client.TemporalLogClient.IndexByDate and (R3) loglist3.LogList.TemporallyCompatible are each compared, for every feasible combination of bound presence and of the order of t against start and limit (t<, t=, t>), with the one predicate of the property, inside ⇔ (no start ∨ t ≥ start) ∧ (no limit ∨ t < limit); since all three are compared with the same table they agree pairwise on every instant including the exact boundary values; "+
 		"(R4) the compared operands are the whole time.Time instants (leaf NotAfter of chain[0] / of the parsed first chain entry / of the certificate; the configured bounds) with no truncation or unit conversion in between, the bounds reach the comparison unswapped from the configuration (NotAfterStart→start/lower, NotAfterLimit→limit/upper), and the shard chosen / log kept is the one whose interval was tested; "+
-		"(R5) construction: shardInterval refuses invalid timestamps and ¬(lower < upper); NewTemporalLogClient refuses an empty list, a shard after an interval without upper bound, a later shard without lower bound and lower ≠ previous upper, and extends the overall span by the new upper bound — or, where the previous shard's interval is read back from the list of intervals (inside the conversion loop or in a pair loop of its own), compares shard i with shard i−1 for every i from 1 to the last shard; ValidateLogConfig refuses limit < start and invalid timestamps. "+
+		"(R5) construction: shardInterval refuses invalid timestamps and ¬(lower < upper); NewTemporalLogClient refuses an empty list, a shard after an interval without upper bound, a later shard without lower bound and lower ≠ previous upper, and extends the overall span by the new upper bound — or, where the previous shard's interval is read back from the list of intervals (inside the conversion loop or in a pair loop of its own), compares shard i with shard i−1 for every i from 1 to the last shard; ValidateLogConfig refuses limit < start and invalid timestamps; "+
+		"(R6) the bounds are configuration, not a frozen clock: no store anywhere in the module writes a sample of a clock (time.Now / Since / Until / timers, through any helper, parameter or clock interface) that outlives the call that took it into a long-lived cell read by the comparisons of ValidateChain, IndexByDate or TemporallyCompatible (validation options, validated configuration, shard intervals, log-list intervals and whatever feeds them) — rule C02.R10 applied to the three filters. "+
 		"NOT covered: that the X.509 parser yields the right NotAfter; the behaviour of time.Time.Before/After/Equal and timestamppb.AsTime themselves; that IndexByDate's first-match order coincides with 'exactly one shard' is derived from contiguity (R5) plus the table (R2), not checked on concrete shard lists; log lists whose intervals overlap.",
 		runC18)
 }
@@ -179,6 +180,10 @@ func runC18(r *Run) {
 			func(s Sigma, from *ssa.BasicBlock) *Reach { return r.D.Walk(fn, s, from, nil) })
 		r.ErrorsGate(fn, "ValidateLogConfig:invalid-timestamp", "(*timestamppb.Timestamp).CheckValid", 2)
 	}
+
+	// ---- R6: no clock sample is stored into the long-lived bounds these filters compare with (rules_t7c02clock.go)
+	r.Rule("C18.R6")
+	noStaleClock(r, []clkFilter{{"trillian/ctfe.ValidateChain", 3}, {"(*client.TemporalLogClient).IndexByDate", 2}, {"(*loglist3.LogList).TemporallyCompatible", 2}})
 }
 
 func wSliceBase(v ssa.Value) ssa.Value {
